@@ -92,7 +92,7 @@ def gen_case(rng):
     if lt in ('int8', 'int16', 'uint8', 'uint16') and mode in ('superset', 'disjoint') and rng.random() < 0.6:
         # a requested integer label that the (narrow) dtype of the existing labels cannot hold
         new = list(new)
-        new.insert(rng.randint(0, len(new)), rng.choice([70000, 100000 + len(new)]))
+        new.insert(rng.randint(0, len(new)), rng.choice([70000, 100000 + len(new)] + ([-70000, -40000] if lt.startswith('int') else [])))
     if lt == 'float32' and mode in ('superset', 'disjoint') and rng.random() < 0.6:
         # a requested label that float32 (the dtype of the existing labels) cannot represent
         new = list(new)
